@@ -111,12 +111,14 @@ theorem unsafe_confined :
     Extracted.Source.unsafeFiles.all (fun f => ["paseto-core/src/base64.rs", "paseto-v3-aws-lc/src/lc/mod.rs",
       "paseto-v3-aws-lc/src/lc/ptr.rs"].contains f.1) = true := by decide
 
-/-- the only `unsafe impl`s are `Send` / `Sync` for the two aws-lc key wrappers, each of which holds exactly one owned
-    `EC_KEY`; and no function writes through, or releases, an aws-lc object it holds only by shared reference
-    (`&self`, `&VerifyingKey`, `&Signature`, `ConstPointer`), so sharing a key across threads only ever *reads* it -/
+/-- the only `unsafe impl`s of the aws-lc wrapper module are `Send` / `Sync`; the types they are declared for hold
+    nothing with a non-atomic shared count or interior mutability (`Rc`, `Weak`, `Cell`, `RefCell`, `UnsafeCell`, followed
+    through the structs of `lc/mod.rs` and `lc/ptr.rs`); and no function writes through, or releases, an aws-lc object it
+    holds only by shared reference (`&self`, `&VerifyingKey`, `&Signature`, `ConstPointer`), so sharing a key across
+    threads only ever *reads* it.  (Names and shapes of the wrapper structs are not constrained.) -/
 theorem send_sync_keys_are_read_only :
-    Extracted.Ffi.unsafeImpls = [("Send", "SigningKey"), ("Send", "VerifyingKey"), ("Sync", "SigningKey"), ("Sync", "VerifyingKey")] ∧
-    Extracted.Ffi.structs = [("SigningKey", ["LcPtr<EC_KEY>"]), ("Signature", ["LcPtr<ECDSA_SIG>"]), ("VerifyingKey", ["LcPtr<EC_KEY>"])] ∧
+    Extracted.Ffi.unsafeImpls.all (fun p => p.1 == "Send" || p.1 == "Sync") = true ∧
+    Extracted.Ffi.sendSyncFieldViolations = [] ∧
     Extracted.Ffi.sharedMutations = [] := by decide
 
 /-- no wrapper consults or changes aws-lc's per-thread / process-wide state (error queue, RNG seeding, global
